@@ -117,6 +117,22 @@ void check_history(History const& h, Problem const& prob, OracleOpts const& opts
         auto it = prob.action_ids.find(label);
         return it == prob.action_ids.end() ? kNone : it->second;
     };
+    // Recorded C08 regime seen through the stepping loop (uniform-field
+    // along-step): delta_chord > 0.122 R_perp for the particle at this step
+    auto c08_regime = [&](SlotObs const& b) -> std::string {
+        double bmag = std::sqrt(opts.field_tesla[0] * opts.field_tesla[0]
+                                + opts.field_tesla[1] * opts.field_tesla[1]
+                                + opts.field_tesla[2] * opts.field_tesla[2]);
+        if (!(bmag > 0) || b.particle == kNone || b.particle >= prob.masses.size())
+            return "";
+        double m = prob.masses[b.particle];
+        double pmom = std::sqrt(b.energy * (b.energy + 2 * m));
+        double cosb = (b.dir[0] * opts.field_tesla[0] + b.dir[1] * opts.field_tesla[1]
+                       + b.dir[2] * opts.field_tesla[2])
+                      / bmag;
+        double rperp = pmom / (2.99792458 * bmag) * std::sqrt(std::max(0.0, 1 - cosb * cosb));
+        return opts.field_delta_chord > 0.1224 * rperp ? ":delta_chord-admits-substeps-over-1-rad" : "";
+    };
     std::uint32_t const boundary_action = action_id("geo-boundary");
     std::uint32_t const failure_action = action_id("physics-failure");
     std::uint32_t const tracking_cut_action = action_id("tracking-cut");
@@ -448,7 +464,8 @@ void check_history(History const& h, Problem const& prob, OracleOpts const& opts
                     os.precision(17);
                     os << "straight-line displacement " << disp << " exceeds step length "
                        << c.step_length << ": " << fmt_slot(f, s, c);
-                    out.violate("C05", klass, klass, os.str());
+                    std::string fp = klass + c08_regime(b);
+                    out.violate("C05", klass, fp, os.str());
                 }
                 // a track cut after a geometry error has no meaningful volume
                 bool cut = (c.post_action == tracking_cut_action);
@@ -456,7 +473,7 @@ void check_history(History const& h, Problem const& prob, OracleOpts const& opts
                 {
                     out.violate("C05",
                                 "volume-changed-without-boundary",
-                                "volume-changed-without-boundary",
+                                "volume-changed-without-boundary" + c08_regime(b),
                                 "volume changed on a step not limited by a boundary: pre vol "
                                     + std::to_string((int)b.volume) + " " + fmt_slot(f, s, c));
                 }
@@ -464,7 +481,7 @@ void check_history(History const& h, Problem const& prob, OracleOpts const& opts
                 {
                     out.violate("C05",
                                 "left-world-without-boundary",
-                                "left-world-without-boundary",
+                                "left-world-without-boundary" + c08_regime(b),
                                 "track is outside after a non-boundary step: " + fmt_slot(f, s, c));
                 }
                 if (opts.probe && !b.on_boundary)
@@ -481,7 +498,7 @@ void check_history(History const& h, Problem const& prob, OracleOpts const& opts
                         if (v != b.volume)
                             out.violate("C05",
                                         "volume-mismatch",
-                                        "volume-mismatch",
+                                        "volume-mismatch" + c08_regime(b),
                                         "reported volume differs from the volume containing the "
                                         "position ("
                                             + std::to_string((int)v) + "): " + fmt_slot(f, s, b));
